@@ -1328,4 +1328,63 @@ def r5_12(ctx):
                   f"`{short(c)}` stores the end offset as given: stylize('red', 0, 10) on a 3-character text leaves a span (0, 10); characters appended afterwards fall inside it and turn red")
 
 
-RULES = [r5_0, r5_1, r5_2, r5_3, r5_4, r5_5, r5_6, r5_7, r5_8, r5_9, r5_10, r5_11, r5_12]
+def r5_13(ctx):
+    ctx.rule("R5.13", "every covering span takes part in the combination, in list order and as often as it occurs: in Text.render the sequence handed to Style.combine is built from sorted(stack) (the ids of the spans open at this offset, ascending) by an order- and multiplicity-preserving construction - a tuple / list / generator over it; de-duplicating it (dict.fromkeys, set) keeps the FIRST occurrence of a repeated style, so in [red]a[blue]b[red]c the later red no longer overrides blue")
+    from ..astutil import inline as _inl, single_defs as _sdf
+    m = ctx.repo.mod(TEXT_MOD)
+    rn = m.fn("Text.render")
+    fam = [rn] + [q for k, q in m.functions.items() if k.startswith("Text.render.<locals>.")]
+    n = 0
+    for q in fam:
+        al = alias_map(q.node)
+        al.update({k: v for k, v in alias_map(rn.node).items() if k not in al})
+        sd = _sdf(q.node)
+        for c in walk_local(q.node):
+            if isinstance(c, ast.Call) and norm(expand_alias(c.func, al)) in ("Style.combine", "combine") and c.args:
+                n += 1
+                e = _inl(c.args[0], sd)
+                where = f"{m.relpath}:{c.lineno}"
+                dedup = [w for w in ast.walk(e) if isinstance(w, ast.Call) and norm(w.func) in ("dict.fromkeys", "set", "frozenset", "OrderedDict.fromkeys")]
+                if dedup:
+                    ctx.violation(q.fq, short(c), where, f"the styles handed to combine() pass through `{short(dedup[0])}`, which drops repeated styles (keeping the first occurrence): with tags [red]a[blue]b[red]c the text c is rendered blue - the later tag no longer takes precedence")
+                    continue
+                has_sorted = any(isinstance(w, ast.Call) and norm(w.func) == "sorted" and w.args and norm(w.args[0]) == "stack" for w in ast.walk(e))
+                if not has_sorted:
+                    raise AnalysisError(f"Text.render: the argument of combine() (`{short(e)}`) is not built from sorted(stack); the precedence clause is not decided for this form")
+                ctx.ok(where, "combine() receives every open span's style in ascending span order", q.fq)
+    ctx.floor(n, 1, "Style.combine calls in Text.render")
+
+
+def r5_14(ctx):
+    ctx.rule("R5.14", "Text.split cuts where str.split cuts: the separator occurrences are the non-overlapping ones found left to right - re.finditer(re.escape(separator), text), or a str.find loop that resumes the search at <previous start> + len(separator); resuming at start + 1 also reports occurrences that overlap the previous one ('aaa'.split('aa') would get three cuts)")
+    from ..astutil import inline as _inl, single_defs as _sdf
+    m = ctx.repo.mod(TEXT_MOD)
+    sp = m.fn("Text.split")
+    fam = [sp] + [q for k, q in m.functions.items() if k.startswith("Text.split.<locals>.")]
+    sep = sp.params[1]
+    n = 0
+    for q in fam:
+        al = alias_map(q.node)
+        sd = _sdf(q.node)
+        for c in walk_local(q.node):
+            if not isinstance(c, ast.Call):
+                continue
+            fn_ = norm(expand_alias(c.func, al))
+            where = f"{m.relpath}:{c.lineno}"
+            if fn_ in ("re.finditer", "finditer") and c.args:
+                n += 1
+                pat = norm(_inl(c.args[0], sd))
+                ctx.check(pat in (f"re.escape({sep})", f"escape({sep})"), q.fq, short(c), where, "separator occurrences found by a regex scan of the escaped separator (non-overlapping)",
+                          f"`{short(c)}` searches for `{pat}`, not for the escaped separator: regex metacharacters in the separator change where the text is cut")
+            elif fn_.endswith(".find") and len(c.args) == 2 and norm(c.args[0]) == sep:
+                n += 1
+                nxt = _inl(c.args[1], sd)
+                txt = norm(nxt).replace(" ", "")
+                size_names = {k for k, v in sd.items() if norm(v) == f"len({sep})"} | {f"len({sep})"}
+                ok = isinstance(nxt, ast.BinOp) and isinstance(nxt.op, ast.Add) and any(norm(side).replace(" ", "") in {s_.replace(" ", "") for s_ in size_names} for side in (nxt.left, nxt.right))
+                ctx.check(ok, q.fq, short(c), where, "the search resumes after the whole separator",
+                          f"`{short(c)}` resumes the search at `{norm(nxt)}`, not at the end of the previous occurrence (start + len({sep})): overlapping occurrences are reported and the text is cut inside a separator - Text('foo---bar').split('--') gives ['foo', '', 'bar']")
+    ctx.floor(n, 1, "separator searches in Text.split")
+
+
+RULES = [r5_0, r5_1, r5_2, r5_3, r5_4, r5_5, r5_6, r5_7, r5_8, r5_9, r5_10, r5_11, r5_12, r5_13, r5_14]
